@@ -1,13 +1,203 @@
 /-
-  Avt.Spec.C20 — oracle of property C20 (decidable predicates evaluated on implementation states;
-  the same definitions the theorems in Avt/Props/C20.lean are stated with).
+  Avt.Spec.C20 — control strings and unimplemented sequences are inert: the text-level classifier of
+  inert input and the oracle.
+
+  `isInertInput s` is decided from the *text* alone (it never runs a parser): `s` is a non-empty
+  concatenation of
+   * complete control strings — OSC / DCS / SOS / PM / APC, 7- or 8-bit introducer, a payload of
+     printable ASCII (incl. DEL), code points ≥ U+00A0 and C0 controls other than CAN, SUB, ESC (and BEL
+     for OSC), terminated by ST in 7- or 8-bit form (or BEL for OSC);
+   * CSI sequences `CSI [<=>?]? [0-9;:]* [SP../]* final` whose (last intermediate or private marker,
+     final, parameters as written) select no function in the reference dispatch table
+     `C03.refDispatchCsi`: unimplemented finals, the markers `<` `=` `>`, every intermediate except
+     the DECSTR spelling `! p`, and implemented selectors with an unassigned selector value
+     (`CSI 7 J`);
+   * ESC sequences `ESC [SP../]* final` that select nothing in `C03.refDispatchEsc`;
+   * single C0 / C1 controls without a function.
+  The only thing shared with C03 is the hand-written table of implemented functions.
 -/
 import Avt.Spec.Base
+import Avt.Spec.C03
 
 namespace Avt.Spec.C20
-open Avt Avt.Spec
+open Avt Avt.Spec Avt.Spec.C03
 
-def checkStep (_ev : StepEv) : List Verdict := []
+/-! ### control strings -/
+
+inductive StrKind where
+  | osc | dcs | sos | pm | apc
+  deriving DecidableEq, Repr, Inhabited
+
+def StrKind.all : List StrKind := [.osc, .dcs, .sos, .pm, .apc]
+
+/-- the character after ESC in the 7-bit introducer: `]` `P` `X` `^` `_` -/
+def StrKind.intro7 : StrKind → Nat
+  | .osc => 0x5D | .dcs => 0x50 | .sos => 0x58 | .pm => 0x5E | .apc => 0x5F
+
+/-- the 8-bit introducer: OSC DCS SOS PM APC -/
+def StrKind.intro8 : StrKind → Nat
+  | .osc => 0x9D | .dcs => 0x90 | .sos => 0x98 | .pm => 0x9E | .apc => 0x9F
+
+def StrKind.intros (k : StrKind) : List (List Nat) := [[0x1B, k.intro7], [k.intro8]]
+
+/-- ST in 7- and 8-bit form; BEL for OSC -/
+def StrKind.terms (k : StrKind) : List (List Nat) :=
+  [[0x1B, 0x5C], [0x9C]] ++ (if k = .osc then [[0x07]] else [])
+
+/-- payload characters: printable ASCII and DEL, code points from U+00A0, C0 other than CAN SUB ESC
+    (and BEL inside OSC) -/
+def payloadCharOK (k : StrKind) (c : Nat) : Bool :=
+  (inR 0x20 0x7F c || inR 0xA0 0x10FFFF c || inR 0x00 0x17 c || inR 0x19 0x19 c || inR 0x1C 0x1F c)
+    && !(k == .osc && inR 0x07 0x07 c)
+
+def payloadOK (k : StrKind) (payload : List Nat) : Bool := payload.all (payloadCharOK k)
+
+/-- the parser states a control string of kind `k` passes through -/
+def strStates : StrKind → List PState
+  | .osc => [.OscString]
+  | .dcs => [.DcsEntry, .DcsParam, .DcsIntermediate, .DcsPassthrough, .DcsIgnore]
+  | _ => [.SosPmApcString]
+
+/-- the rest of the text after the terminator of a control string of kind `k` -/
+def scanStr (k : StrKind) : List Nat → Option (List Nat)
+  | [] => none
+  | c :: r =>
+    if c = 0x9C then some r
+    else if c = 0x07 ∧ k = .osc then some r
+    else if c = 0x1B then (match r with | 0x5C :: r' => some r' | _ => none)
+    else if payloadCharOK k c then scanStr k r else none
+
+def kindOfIntro7 (c : Nat) : Option StrKind := StrKind.all.find? fun k => k.intro7 == c
+def kindOfIntro8 (c : Nat) : Option StrKind := StrKind.all.find? fun k => k.intro8 == c
+
+/-! ### CSI sequences -/
+
+/-- the text of a CSI sequence after the introducer -/
+structure CsiText where
+  marker : Option Nat       -- `<` `=` `>` `?`
+  params : List Nat         -- `0`–`9` `;` `:`
+  ints : List Nat           -- SP–`/`
+  final : Nat               -- `@`–`~`
+  deriving Repr, Inhabited
+
+def CsiText.body (t : CsiText) : List Nat := t.marker.toList ++ t.params ++ t.ints ++ [t.final]
+
+def CsiText.wf (t : CsiText) : Bool :=
+  (match t.marker with | some m => inR 0x3C 0x3F m | none => true)
+    && t.params.all (inR 0x30 0x3B) && (t.marker.isSome || t.params.head? != some 0x3A)
+    && t.ints.all (inR 0x20 0x2F) && inR 0x40 0x7E t.final
+
+/-- the last intermediate, or else the private marker -/
+def CsiText.eff (t : CsiText) : Option Nat :=
+  match t.ints.getLast? with
+  | some i => some i
+  | none => t.marker
+
+/-- the function the sequence selects in the reference table -/
+def CsiText.fn (t : CsiText) : Option Function := refDispatchCsi t.eff t.final (parseParams t.params)
+
+/-- an optional private marker at the front -/
+def splitMarker (s : List Nat) : Option Nat × List Nat :=
+  match s with
+  | c :: r => if inR 0x3C 0x3F c then (some c, r) else (none, s)
+  | [] => (none, s)
+
+def parseCsi (s : List Nat) : Option (CsiText × List Nat) :=
+  let ms := splitMarker s
+  let s2 := ms.2.dropWhile (inR 0x30 0x3B)
+  match s2.dropWhile (inR 0x20 0x2F) with
+  | f :: rest =>
+    let t : CsiText := { marker := ms.1, params := ms.2.takeWhile (inR 0x30 0x3B),
+                         ints := s2.takeWhile (inR 0x20 0x2F), final := f }
+    if t.wf then some (t, rest) else none
+  | [] => none
+
+/-! ### ESC sequences -/
+
+structure EscText where
+  ints : List Nat
+  final : Nat
+  deriving Repr, Inhabited
+
+def EscText.body (t : EscText) : List Nat := t.ints ++ [t.final]
+
+/-- finals that, directly after ESC, introduce a longer sequence: `P` `X` `[` `]` `^` `_` -/
+def escIntroducers : List Nat := [0x50, 0x58, 0x5B, 0x5D, 0x5E, 0x5F]
+
+def EscText.wf (t : EscText) : Bool :=
+  t.ints.all (inR 0x20 0x2F) && inR 0x30 0x7E t.final && (!t.ints.isEmpty || !escIntroducers.contains t.final)
+
+def EscText.fn (t : EscText) : Option Function := refDispatchEsc t.ints.getLast? t.final
+
+def parseEsc (s : List Nat) : Option (EscText × List Nat) :=
+  let ints := s.takeWhile (inR 0x20 0x2F)
+  match s.dropWhile (inR 0x20 0x2F) with
+  | f :: rest =>
+    let t : EscText := { ints := ints, final := f }
+    if t.wf then some (t, rest) else none
+  | [] => none
+
+/-! ### single controls -/
+
+/-- C0 / C1 controls that neither have a function nor introduce a sequence -/
+def unassignedControl (c : Nat) : Bool :=
+  (inR 0x00 0x1F c || inR 0x80 0x9F c)
+    && !([0x1B, 0x90, 0x98, 0x9B, 0x9D, 0x9E, 0x9F].contains c) && (refExecute c).isNone
+
+/-! ### the classifier -/
+
+/-- remove one inert item from the front of the text -/
+def stripInert (s : List Nat) : Option (List Nat) :=
+  match s with
+  | [] => none
+  | 0x1B :: r =>
+    (match r with
+     | [] => none
+     | x :: r' =>
+       if x = 0x5B then
+         (match parseCsi r' with
+          | some (t, rest) => if t.fn.isNone then some rest else none
+          | none => none)
+       else match kindOfIntro7 x with
+         | some k => scanStr k r'
+         | none =>
+           match parseEsc r with
+           | some (t, rest) => if t.fn.isNone then some rest else none
+           | none => none)
+  | c :: r =>
+    if c = 0x9B then
+      (match parseCsi r with
+       | some (t, rest) => if t.fn.isNone then some rest else none
+       | none => none)
+    else match kindOfIntro8 c with
+      | some k => scanStr k r
+      | none => if unassignedControl c then some r else none
+
+def inertGo : Nat → List Nat → Bool
+  | _, [] => true
+  | 0, _ :: _ => false
+  | n + 1, s => match stripInert s with | some rest => inertGo n rest | none => false
+
+/-- the input is a non-empty concatenation of inert items -/
+def isInertInput (s : List Nat) : Bool := !s.isEmpty && inertGo s.length s
+
+/-! ### the oracle -/
+
+/-- A public call whose input is inert, made with the parser in Ground: nothing reaches the terminal,
+    the parser is back in Ground, the terminal is what it was (after the `changes()`/`gc()` every
+    `feed_str` ends with), and the changed lines reported are those that were already pending before
+    the call — none when the previous call cleared the flags. -/
+def checkStep (ev : StepEv) : List Verdict :=
+  if ev.kind != .resize && ev.prev.parser.state == .Ground && isInertInput ev.input then
+    let clean := ev.prev.terminal.dirtyLines.all (· == false)
+    [ check "inert-emits-no-function" true (ev.funs == []),
+      check "inert-parser-back-in-ground" true (ev.next.parser.state == .Ground),
+      check "inert-terminal-unchanged" true (ev.next.terminal == afterCall ev.kind ev.prev.terminal),
+      check "inert-no-changed-lines" (ev.ch.isSome && clean)
+        (match ev.ch with
+         | some ch => ch == reportedOf ev.prev.terminal && (!clean || ch == [])
+         | none => true) ]
+  else []
 
 def checkNew (_cols _rows : Nat) (_lim : Option Nat) (_st : Vt) : List Verdict := []
 
